@@ -95,6 +95,8 @@ theorem appendBatch_facts_C3b (N : Nat) (es : List (LogId × Bytes)) :
     unfold Store.appendBatch
     have hf := appendAndApply_facts_C3b s fsHas (.append id p)
     split
+    · exact ⟨h1, rfl, h2⟩
+    split
     · rename_i seg' s' e' heq
       rw [heq] at hf
       have := ih (fun i => fsHas i || e'.any (fun e => e == .create i)) s' seg' (effs ++ e')
@@ -141,6 +143,8 @@ theorem call_facts_C3b (s : Store) (fsHas : Nat → Bool) (op : Op) :
           · exact key (appendAndApply_facts_C3b _ _ _)
   | purge upto =>
     simp only [Store.call]
+    split
+    · exact key (same _)
     split
     · exact key (same _)
     · split
